@@ -24,12 +24,17 @@ type Typifier struct {
 	done  []bool
 	wgul  map[ir.ExpressionHandle]ir.ExpressionHandle // WorkGroupUniformLoad result -> pointer
 	wgulB bool
+	busy  []bool
+
+	// SSA accepts the DXIL-internal kinds: ExprAlias has the type of its source,
+	// ExprPhi the type of its incomings; their operands may be later expressions.
+	SSA bool
 }
 
 // NewTypifier prepares a typifier for f (a function of m or an entry point's function).
 func NewTypifier(m *ir.Module, f *ir.Function) *Typifier {
 	n := len(f.Expressions)
-	return &Typifier{m: m, f: f, res: make([]TypeRes, n), err: make([]error, n), done: make([]bool, n)}
+	return &Typifier{m: m, f: f, res: make([]TypeRes, n), err: make([]error, n), done: make([]bool, n), busy: make([]bool, n)}
 }
 
 // Typify infers the type of expression h of function f.
@@ -45,14 +50,28 @@ func (t *Typifier) Type(h ir.ExpressionHandle) (TypeRes, error) {
 	if t.done[h] {
 		return t.res[h], t.err[h]
 	}
-	t.done[h] = true // set first: a forward/self reference is reported below, never recursed into
-	for _, op := range Operands(t.f.Expressions[h].Kind) {
-		if op >= h {
-			t.err[h] = fmt.Errorf("operand [%d] of expression [%d] is not an earlier expression", op, h)
-			return TypeRes{}, t.err[h]
+	if t.busy[h] {
+		return TypeRes{}, fmt.Errorf("expression [%d] depends on itself", h)
+	}
+	kind := t.f.Expressions[h].Kind
+	ssaKind := false
+	switch kind.(type) {
+	case ir.ExprAlias, ir.ExprPhi:
+		ssaKind = t.SSA
+	}
+	if !ssaKind {
+		for _, op := range Operands(kind) {
+			if op >= h {
+				t.done[h] = true
+				t.err[h] = fmt.Errorf("operand [%d] of expression [%d] is not an earlier expression", op, h)
+				return TypeRes{}, t.err[h]
+			}
 		}
 	}
-	r, err := t.infer(h, t.f.Expressions[h].Kind)
+	t.busy[h] = true
+	r, err := t.infer(h, kind)
+	t.busy[h] = false
+	t.done[h] = true
 	t.res[h], t.err[h] = r, err
 	return r, err
 }
@@ -412,6 +431,34 @@ func (t *Typifier) infer(h ir.ExpressionHandle, kind ir.ExpressionKind) (TypeRes
 
 	case ir.ExprSubgroupOperationResult:
 		return H(k.Type), t.typeOK(k.Type)
+
+	case ir.ExprAlias:
+		if !t.SSA {
+			return TypeRes{}, ErrUnsupported
+		}
+		return t.Type(k.Source)
+
+	case ir.ExprPhi:
+		if !t.SSA {
+			return TypeRes{}, ErrUnsupported
+		}
+		if len(k.Incoming) == 0 {
+			return TypeRes{}, fmt.Errorf("phi without incomings")
+		}
+		first, err := t.Type(k.Incoming[0].Value)
+		if err != nil {
+			return TypeRes{}, err
+		}
+		for _, in := range k.Incoming[1:] {
+			r, err := t.Type(in.Value)
+			if err != nil {
+				return TypeRes{}, err
+			}
+			if !ResEqual(m, first, r) {
+				return TypeRes{}, fmt.Errorf("phi incomings of different types %s and %s", ResString(m, first), ResString(m, r))
+			}
+		}
+		return first, nil
 	}
 	return TypeRes{}, ErrUnsupported
 }
